@@ -222,6 +222,11 @@ def alternatives(lib, body, op, _depth=0, _seen=None):
 
 
 def _agg(lib, body, rv, _depth, seen):
+    if rv.get("agg") == "adt" and rv.get("adt") != "std::option::Option" and len(rv.get("ops", [])) == 1:
+        # a newtype around the value (`Depth(limit)`)
+        a = lib.adts.get(rv.get("adt"))
+        if a and a.get("kind") == "struct":
+            return alternatives(lib, body, rv["ops"][0], _depth + 1, seen)
     if rv.get("adt") == "std::option::Option":
         if rv.get("variant") == "None":
             return []
@@ -254,6 +259,9 @@ def _call(lib, body, t, _depth, seen):
         return _norm(A(args[0]) + A(args[1]))
     if d == "std::option::Option::<T>::unwrap_or_default" and len(args) == 1:
         return _norm(A(args[0]) + [(0, 0, False)])
+    if d in ("std::ops::Try::branch", "std::option::Option::<T>::ok_or", "std::option::Option::<T>::ok_or_else", "std::num::NonZero::<T>::new", "std::num::NonZero::<T>::get") and args:
+        # value-preserving on the path that goes on (`NonZeroUsize::new(limit).ok_or(..)?`)
+        return A(args[0])
     if d in ("std::convert::From::from", "std::convert::Into::into", "std::clone::Clone::clone", "std::option::Option::<T>::unwrap", "std::option::Option::<T>::expect", "std::option::Option::<T>::copied", "std::option::Option::<T>::cloned",
              "std::convert::TryFrom::try_from", "std::convert::TryInto::try_into", "std::result::Result::<T, E>::unwrap", "std::result::Result::<T, E>::expect") and args:
         return A(args[0])
